@@ -949,12 +949,21 @@ func executeLegacy(t *testing.T, sc scenario) (res result) {
 		if res.failure != "" {
 			return
 		}
+		mu.Lock()
+		startedAtReturn := len(calls)
+		mu.Unlock()
 		releaseAll()
-		time.Sleep(3 * hedgeDelay)
+		time.Sleep(3 * hedgeDelay) // no held-back request may be issued after the return, whatever time passes
 		vx.Wait()
 		releaseAll()
 		mu.Lock()
 		defer mu.Unlock()
+		if len(calls) != startedAtReturn {
+			fail("instances were called after Do had returned: %d calls at the return, %d later (delay=%v)", startedAtReturn, len(calls), delay)
+		}
+		if delay > 0 && startedAtReturn < m.n {
+			res.nontrivial = true // requests were still held back when Do returned
+		}
 		for i, c := range calls {
 			if c > 1 {
 				fail("instance %d called %d times", i, c)
